@@ -138,6 +138,7 @@ class ScriptedPeer:
         self.lsock.listen(64)
         self.port = self.lsock.getsockname()[1]
         self.log = []
+        self.ident_for_connection = None  # optional callable(index) -> Identity, for per-connection certificates
         self.lock = threading.Lock()
         self.stop_flag = False
         self.threads = []
@@ -171,6 +172,10 @@ class ScriptedPeer:
             s.settimeout(10)
             if self.tls:
                 ctx = self.ctx
+                if self.ident_for_connection is not None:
+                    ident = self.ident_for_connection(rec["index"])
+                    ctx = server_context(ident, **self.ctx_kwargs)
+                    rec["cert_fp"] = ident.fingerprint
                 try:
                     ss = ctx.wrap_socket(s, server_side=True, suppress_ragged_eofs=False)
                 except (ssl.SSLError, OSError) as e:
